@@ -364,3 +364,54 @@ def array_sink_program(rnd, name):
     if rnd.random() < 0.3:
         ins.append(Gen('Out', 2, [C(0), R(1)], 0))
     return Prog(name, ctl, ins)
+
+
+_DERIVED = None
+
+
+def derived_classes():
+    """classes whose input-rate requirement was read from the library source (harness/derive_classes.py)"""
+    global _DERIVED
+    if _DERIVED is None:
+        with open(os.path.join(os.path.dirname(os.path.abspath(__file__)), 'derived_classes.json')) as f:
+            _DERIVED = json.load(f)
+    return _DERIVED
+
+
+def rate_check_program(rnd, name, multi_only=False):
+    """one unit of a class with a declared input-rate requirement (first n inputs audio / first input at the unit's
+    rate), fed so that NO checked position, or exactly ONE of them in turn, or several, hold a signal of the wrong
+    rate (control or scalar unit, control-rate operator result, control, constant); its output goes to an output
+    unit so that it cannot be dropped.  The spec decides which of these must be refused."""
+    tab = derived_classes()
+    names = sorted(k for k, v in tab.items() if (v['kind'] == 'n' and v['n'] >= 2) or not multi_only)
+    cls = rnd.choice(names)
+    c = tab[cls]
+    rate = rnd.choice(c['rates']) if c['kind'] == 'same' else 2
+    ctl = [Ctl('kc', 1, 3), Ctl('ac', 2, 1)]
+    ins = [Gen('SinOsc', 2, [C(440), C(0)]), Gen('WhiteNoise', 2, []), Gen('LFNoise0', 1, [C(2)]),
+           Gen('Rand', 0, [C(0), C(1)]), Bin('*', R(1), R(2)), Bin('+', R(3), Pm(1))]
+    by_rate = {2: [R(1), R(2), R(5), Pm(2)], 1: [R(3), R(6), Pm(1)], 0: [R(4)]}
+    good = by_rate[rate]
+    bad = [x for r_, xs in by_rate.items() if r_ != rate for x in xs] + [C(2), C(0)]
+    n = c['n']
+    mode = rnd.choice(['none', 'one', 'one', 'one', 'many'])
+    badpos = set()
+    if mode == 'one':
+        badpos = {rnd.randrange(n)}
+    elif mode == 'many':
+        badpos = {j for j in range(n) if rnd.random() < 0.6}
+    args = []
+    for j in range(c['nin']):
+        if j < n:
+            args.append(rnd.choice(bad) if j in badpos else rnd.choice(good))
+        else:
+            args.append(rnd.choice([C(1), C(0), C(2), R(3), Pm(1)]))
+    nout = rnd.randint(1, 4) if c['nout'] < 0 else c['nout']
+    ins.append(Gen(cls, rate, args, nout))
+    k = len(ins)
+    if rate == 2:
+        ins.append(Gen('Out', 2, [C(0)] + [R(k, ch) for ch in range(nout)], 0))
+    else:
+        ins.append(Gen('Out', 1, [C(0)] + [R(k, ch) for ch in range(nout)], 0))
+    return Prog(name, ctl, ins)
